@@ -159,6 +159,13 @@ def run_case(case, ctx):
         yin = pandas.Series(y, index=ix)
         win = None if w is None else pandas.Series(w, index=ix)
         cfg["index"] = "permuted"
+    elif frame:
+        # the frame carries a shuffled index (rows of a split), the target is a Series built afterwards on the default
+        # range index: scikit-learn pairs them by POSITION
+        Xin.index = numpy.random.RandomState(sub % 997).permutation(len(X))
+        yin = pandas.Series(y)
+        win = None if w is None else pandas.Series(w)
+        cfg["index"] = "frame-shuffled/target-range"
 
     A = 1e-9 * S
     copy_X = (sub // 11) % 6 != 0          # copy_X=False: X may be overwritten, the fit is the same fit
@@ -196,7 +203,8 @@ def run_case(case, ctx):
         m = new(max_iter=6000)
         if not copy_X:
             Xin = pandas.DataFrame(X.copy(), columns=["c%d" % i for i in range(p)]) if frame else X.copy()
-        m.fit(Xin, y) if w is None else m.fit(Xin, y, sample_weight=w)
+        # (the same containers as the first fit: the converged run must not hide what the containers cause)
+        m.fit(Xin, yin) if w is None else m.fit(Xin, yin, sample_weight=win)
         f = m.predict(X)
         lfit = pinball(y, f, q, w)
     if lstar is None:
